@@ -6,7 +6,7 @@ from concurrent.futures import ThreadPoolExecutor
 from .common import *      # noqa
 from . import gen
 
-EVID = os.path.join(VERIF, "evidence")
+EVID = os.environ.get("LSV_EVIDENCE_DIR", os.path.join(VERIF, "evidence"))
 KNOWN = os.path.join(VERIF, "known_findings.json")
 
 
@@ -358,9 +358,10 @@ def verdict(prop, tier, seed, merged, l1, t0, level_extra=None, spec="TV_Store")
             "samples": samples or [{"note": "no event sample"}],
             "evaluations": merged["evaluations"],
             "distinct_nontrivial": max(0, nontrivial - dup),
-            "rule": "evaluations = calls replayed on the real code; non-trivial = evaluations of this property's predicate whose "
-                    "domain precondition held (counted by TLC while validating the traces: %d); distinct = unique (store history, call) "
-                    "pairs among the generated cases (%d of %d); the reported number subtracts every duplicate" % (nontrivial, merged["distinct"], merged["evaluations"]),
+            "rule": "evaluations = calls replayed on the real code (one recorded event each); non-trivial = events on which this "
+                    "property's predicate was evaluated with its domain precondition true (counted by TLC while validating the traces: %d); "
+                    "distinct = unique (preceding state-changing calls, call) pairs among the generated cases (%d of %d); the reported "
+                    "number is the non-trivial count minus every duplicate" % (nontrivial, merged["distinct"], merged["evaluations"]),
             "l1_model_checking": [{k: x[k] for k in ("module", "cfg", "states", "transitions", "ok", "cached", "wall_s") if k in x} for x in l1],
             "trace_events": merged["events"], "cases": merged["cases"],
             "predicate_evaluations_per_property": merged["cnt"],
